@@ -8,6 +8,8 @@ Type expressions: `Name` | `(Name arg…)` | `(tuple t…)` | `(ref t)` | `(refm
 
 * `(sendsync <type>)` → `<send> <sync>` (`1`/`0`)
 * `(hashfree <Name>)` → `1`/`0`: no `HashMap`/`HashSet` in any definition reachable from `Name`
+* `(immutable <Name>)` → `1`/`0`: no cell / lock / atomic in any definition reachable from `Name`
+* `(run-fresh …)` → `ok` (runtime case, see below)
 * `(run-shared …)`, `(run-mix …)`, `(compile-shared …)` → `ok`: runtime cases, nothing for the model to compute
   (thread interleavings are outside the model; the harness oracle compares with the sequential run).
 -/
@@ -43,6 +45,8 @@ def handleAutotraits : String → List Sexp → Option String
     pure s!"{bit r.1} {bit r.2}"
   | "hashfree", [atom n] =>
     some (bit ((findDef Generated.typeDefs n).isSome && hashFreeFrom Generated.typeDefs [n]))
+  | "immutable", [atom n] => some (bit (immutableFrom Generated.typeDefs [n]))
+  | "run-fresh", _ => some "ok"
   | "run-shared", _ => some "ok"
   | "compile-shared", _ => some "ok"
   | "run-mix", _ => some "ok"
